@@ -7,8 +7,9 @@ CLAIMED = {
  'C19': dict(
     text='Bounded verification by symbolic execution of the real graph_utils functions: edges are solver '
          'booleans, the obligation is the transitive-closure definition as a formula, every feasible path is '
-         'closed with an unsat answer. Holds for every digraph up to the stated vertex bound (quick: 3 vertices, '
-         'reachable and find_longest_paths(from 0) 4; thorough: 4 for all twelve functions); nothing is claimed beyond.',
+         'closed with an unsat answer. Holds for every digraph up to the stated vertex bound (quick: 3 vertices for all twelve functions, '
+         '4 vertices for reachable and, from start vertex 0, bi_reachable, connected, find_all_bi_reachable, find_sources, find_all_paths, '
+         'find_longest_paths; thorough: 4 for all twelve functions); nothing is claimed beyond.',
     note='trusted: z3 5.1, the engine proxies (cross-checked by plain-value re-runs on sampled paths and on every '
          'counterexample), the closure/simple-path reference formulas; vertices = dict keys, adjacency via iteration/membership',
     technique='bounded symbolic execution (own path-forking engine over z3) of src/graph_utils.py with symbolic edge bits',
@@ -110,7 +111,7 @@ CLAIMED = {
          'in java and kotlin; the command-line wiring of the four flags (src.args imported in a fresh interpreter for all 16 combinations) '
          '(thorough: all four languages, richer pools): no projection when use-site variance is disabled, no contravariant one when '
          'contravariance is disabled, no bound when bounded type parameters are disabled, no type parameters when parameterized '
-         'functions are disabled, function type parameters invariant, variant class parameters only for kotlin/scala. A static scan '
+         'functions are disabled, function type parameters invariant (also of methods overriding a parameterized method), variant class parameters only for kotlin/scala. A static scan '
          'requires every WildCardType construction site of /repo/src to be covered by an obligation. Whole programs are not explored.',
     note='trusted: symbolic RNG contract; reduced built-in pools and max_type_params=2 are stated bounds; recorded finding: the '
          'type-variable-free rebuilders ignore the use-site-variance switch',
@@ -181,7 +182,10 @@ CLAIMED = {
          '(variable types, finality, nested scope, expected type and subtype flag are solver values) with the recursive generate_expr '
          'replaced by a contract stub; typing obligations on what each unit builds and on what it requests from the recursion are judged '
          'by the declarative relation. Whole-program well-typedness follows only by a paper induction over the generated tree; '
-         'gen_func_decl bodies and gen_class_decl members (fields, overriding) are not built; '
+         'The declaration units: the members of a class (real gen_class_decl with _select_superclass, gen_class_fields, gen_class_functions, '
+         '_gen_func_from_existing: abstract members implemented along a two-level chain with a generic superclass, overrides only of open members with '
+         'substituted signatures, compatible return / field types, bounds of overridden parameterized methods) and function declarations (defaults, '
+         'varargs, return type, body request) are decided on one inheritance world (6 classes) judged by an own walk over the declarations. '
          'paths on which a unit would create a new class or function give no verdict.',
     note='trusted: contract of generate_expr, declarative relation, reduced built-in pools; composition, Context bookkeeping across units and unbuilt units are outside the claim',
     technique='assume-guarantee unit contracts: bounded symbolic execution of generator units under a symbolic RNG with a contract stub for the recursion',
@@ -192,13 +196,15 @@ CLAIMED = {
          'variables/fields, only regular classes are instantiated with one argument per field, new declarations are registered under a '
          'fresh name, receivers and callees resolve, call arity admits defaults, lambda bodies get their own scope with the java capture '
          'flag, smart casts do not leak) plus two data obligations: the whole word list against each language keyword file under the case mappings of '
-         'gen_identifier, and uniqueness of word() for every choice on a reduced pool.',
+         'gen_identifier, and uniqueness of word() for every choice on a reduced pool. Declaration units (class members, function declarations): members, parameters '
+         'and type parameters registered in the right scope, type variables of signatures and fields in scope, vararg last and of an array type, default '
+         'values generated outside the function scope, scope/depth/blacklist restored.',
     note='trusted: own scope resolution over the context tables; composition into whole programs is a paper argument',
     technique='assume-guarantee unit contracts under a symbolic RNG + finite data obligation on the identifier pool',
     design='4/C05'),
  'C18': dict(
     text='Decided half: (a) no generator unit raises for any RNG outcome, scope and value of the depth counter (symbolic, max_depth=2), and '
-         'the recursion measure holds (depth restored on exit, every recursive request deeper than the entry or with the variable generator '
+         'the recursion measure holds (incl. the declaration units gen_class_decl / gen_func_decl with their member generators; depth restored on exit, every recursive request deeper than the entry or with the variable generator '
          'excluded, only leaf generators at max depth, constructor arguments cut beyond twice max depth); (b) no pipeline stage (translate, '
          'erase, overwrite under a symbolic RNG, translate) raises on the generated members of the families and on the template programs; (c) the identifier '
          'pool survives every history of word()/reset_word_pool() calls on a reduced pool, and gen_type_params does not raise for any requested count within its precondition. NOT decided: termination and '
